@@ -1107,7 +1107,7 @@ async fn load_targets(
             path,
             url: metadata_base_url.clone(),
         })?;
-    let (max_targets_size, specifier) = match targets_meta.length {
+    let (targets_size, specifier) = match targets_meta.length {
         Some(length) => (length, "snapshot.json"),
         None => (max_targets_size, "max_targets_size parameter"),
     };
@@ -1115,13 +1115,13 @@ async fn load_targets(
         fetch_sha256(
             transport,
             targets_url.clone(),
-            max_targets_size,
+            targets_size,
             specifier,
             &hashes.sha256,
         )
         .await?
     } else {
-        fetch_max_size(transport, targets_url.clone(), max_targets_size, specifier).await?
+        fetch_max_size(transport, targets_url.clone(), targets_size, specifier).await?
     };
     let data = stream
         .into_vec()
@@ -1248,10 +1248,14 @@ async fn load_delegations(
                 path: path.clone(),
                 url: metadata_base_url.clone(),
             })?;
-        let specifier = "max_targets_size parameter";
+        // The size of a delegated role file is limited by the length listed for it in the
+        // snapshot, if any, and by `max_targets_size` otherwise.
+        let (role_size, specifier) = match role_meta.length {
+            Some(length) => (length, "snapshot.json"),
+            None => (max_targets_size, "max_targets_size parameter"),
+        };
         // load the role json file
-        let stream =
-            fetch_max_size(transport, role_url.clone(), max_targets_size, specifier).await?;
+        let stream = fetch_max_size(transport, role_url.clone(), role_size, specifier).await?;
         let data = stream
             .into_vec()
             .await
